@@ -308,7 +308,7 @@ func NumericRegistry(tier string) []UniverseDef {
 	i64b := []int64{math.MinInt64, -1 << 31, -1, 0, 1, math.MaxInt64, 1 << 31, -256, 255, -2}
 	i64r := []int64{-0x0002000100010000, -0x0002000100010281, 0x0002000100010000, 0x0002000100010281, 0x0002000100010280, -0x0002000100020000, 0x8000, -0x8000, 0x0002000200010000, 0x00020001000102ff}
 	out = append(out, signedDefs[int64]("int64", tier, i64b, i64r, -0x0123456789abcd80, true)...)
-	ib := []int{math.MinInt, -1 << 31, -1, 0, 1, math.MaxInt, 1 << 31, -256, 255, -2}
+	ib := []int{math.MinInt, math.MinInt / 2, -1, 0, 1, math.MaxInt, math.MaxInt/2 + 1, -256, 255, -2}
 	out = append(out, signedDefs[int]("int", tier, ib, nil, 0x12345680, th)...)
 	// --- float ---
 	nan2 := math.Float64frombits(0x7ff8000000000001)
